@@ -6,6 +6,7 @@ import ast
 from ..loader import AnalysisError, dotted, norm, walk_no_defs
 from ..paths import Executor, Semantics
 from ..report import RuleReport
+from ..rules.common import _bindings
 
 LEVEL = 'other'
 TECHNIQUE = ('static: ownership/linearity analysis of the refill loop (every drawn task is submitted and registered, a future '
@@ -220,19 +221,33 @@ def r4_same_worker(a, tier):
     )
     fn = a.p.func('tatsu.parproc.parproc.parproc')
     uses = []
+    # the Task list: the local(s) bound to a display/comprehension of Task(...)
+    task_lists = {t.id for n in walk_no_defs(fn.node) if isinstance(n, (ast.Assign, ast.AnnAssign)) and n.value is not None
+                  for t in ([n.target] if isinstance(n, ast.AnnAssign) else n.targets) if isinstance(t, ast.Name)
+                  and any(isinstance(x, ast.Call) and dotted(x.func) == 'Task' for x in ast.walk(n.value))}
+    if not task_lists:
+        raise AnalysisError('parproc: the list of Task(...) objects bound to a local was not found')
+    pmaps = {t.id for n in walk_no_defs(fn.node) if isinstance(n, ast.Assign) and isinstance(n.value, ast.Call)
+             and dotted(n.value.func).split('.')[-1] == 'active_pmap' for t in n.targets if isinstance(t, ast.Name)}
+
+    def is_tasks(e) -> bool:
+        return isinstance(e, ast.Name) and e.id in task_lists
+
     for n in walk_no_defs(fn.node):
         if isinstance(n, ast.Call):
             nm = dotted(n.func)
             if nm == 'taskproc':
                 uses.append(('single', norm(n)))
+                if not (n.args and isinstance(n.args[0], ast.Subscript) and is_tasks(n.args[0].value)):
+                    rep.fail(fn.qualname, 'single-worker', f'the single-task path `{norm(n)}` does not run taskproc on an element of the task list', fn.loc)
             elif nm == 'map' and n.args:
                 uses.append(('sequential', norm(n)))
-                if norm(n.args[0]) != 'taskproc':
-                    rep.fail(fn.qualname, 'sequential-worker', f'the sequential path maps `{norm(n.args[0])}`, not taskproc', fn.loc)
-            elif nm == 'pmap':
+                if norm(n.args[0]) != 'taskproc' or len(n.args) < 2 or not is_tasks(n.args[1]):
+                    rep.fail(fn.qualname, 'sequential-worker', f'the sequential path `{norm(n)}` does not map taskproc over the task list', fn.loc)
+            elif (isinstance(n.func, ast.Name) and n.func.id in pmaps) or (isinstance(n.func, ast.Call) and dotted(n.func.func).split('.')[-1] == 'active_pmap'):
                 uses.append(('parallel', norm(n)))
-                if len(n.args) < 3 or norm(n.args[1]) != 'taskproc' or norm(n.args[2]) != 'tasks':
-                    rep.fail(fn.qualname, 'parallel-worker', f'the parallel path `{norm(n)}` does not run taskproc over tasks', fn.loc)
+                if len(n.args) < 3 or norm(n.args[1]) != 'taskproc' or not is_tasks(n.args[2]):
+                    rep.fail(fn.qualname, 'parallel-worker', f'the parallel path `{norm(n)}` does not run taskproc over the task list', fn.loc)
     for u in uses:
         rep.add({'path': u[0], 'call': u[1]})
     kinds = {u[0] for u in uses}
@@ -275,10 +290,50 @@ def r5_capture(a, tier):
                     rep.fail(fn.qualname, 'capture-order', 'the capture clause re-raises before it stored the exception in the result', f'{fn.module.relpath}:{h.lineno}')
             else:
                 rep.add({'handler': [c.split('.')[-1] for c in cs], 'captures': bool(stores)})
-    rets = [norm(r.value) for r in walk_no_defs(fn.node) if isinstance(r, ast.Return) and r.value is not None]
+    retn = [r.value for r in walk_no_defs(fn.node) if isinstance(r, ast.Return) and r.value is not None]
+    rets = [norm(r) for r in retn]
+
+    def is_result(e) -> bool:
+        if isinstance(e, ast.Call):
+            return dotted(e.func) == 'Result'
+        if isinstance(e, ast.Name):
+            b = _bindings(fn, e.id)
+            return bool(b) and all(x is not None and isinstance(x, ast.Call) and dotted(x.func) == 'Result' for x in b)
+        return False
     rep.add({'returns': rets})
-    if not rets or any(not (r == 'result' or r.startswith('Result(')) for r in rets):
+    if not retn or not all(is_result(r) for r in retn):
         rep.fail(fn.qualname, 'returns', f'taskproc returns {rets}: every normal exit must return the Result of that payload', fn.loc)
+    # inner handlers around the call of the user function: an exception of the function is re-raised (to the capture clause),
+    # stored in the result, or answered by calling the function again - on every path through the handler
+    fparam = fn.params[0]
+
+    def calls_func(node) -> bool:
+        return any(isinstance(x, ast.Call) and isinstance(x.func, ast.Attribute) and x.func.attr == 'func' and norm(x.func.value) == fparam
+                   for x in ast.walk(node))
+
+    def complies(stmts) -> bool:
+        for i, st in enumerate(stmts):
+            if isinstance(st, ast.Raise):
+                return True
+            if isinstance(st, ast.Assign) and norm(st.targets[0]).endswith('.exception'):
+                return True
+            if isinstance(st, ast.If):
+                rest = stmts[i + 1:]
+                return complies([*st.body, *rest]) and complies([*st.orelse, *rest])
+            if calls_func(st):
+                return True
+        return False
+    for t in walk_no_defs(fn.node):
+        if isinstance(t, ast.Try) and any(calls_func(x) for x in t.body):
+            for h in t.handlers:
+                cs = ['BaseException'] if h.type is None else [c.split('.')[-1] for c in ex.exc_class(fn, h.type)]
+                ok = complies(h.body)
+                rep.add({'handler_around_user_function': cs, 'reraises_captures_or_retries_on_every_path': ok})
+                if not ok:
+                    rep.fail(fn.qualname, f'swallows:{"/".join(cs)}', f'`except {"/".join(cs)}` around the call of the user function has a '
+                             f'path that neither re-raises, nor stores the exception in the result, nor calls the function again: that '
+                             f'payload gets a Result carrying neither an outcome nor the exception (success=True for a failed task)',
+                             f'{fn.module.relpath}:{h.lineno}')
     return rep
 
 
